@@ -16,6 +16,10 @@ DST=seeded/$ID${ROUND:+-r$ROUND}
 [ -f $SRC/patch.diff ] || { echo "no patch for $ID"; exit 2; }
 git -C /repo apply --check $SRC/patch.diff || { echo "PATCH DOES NOT APPLY to /repo HEAD"; exit 2; }
 S=$(mktemp -d /var/tmp/seedchk.XXXXXX)
+if [ -f $SRC/pre.env ]; then
+  # demo / test results computed earlier by PRE_ONLY=1 (may run in parallel for many IDs)
+  . $SRC/pre.env
+else
 rsync -a --exclude .git --exclude '*.so' --exclude build --exclude docs --exclude _out /repo/ $S/clean/
 cp -r $S/clean $S/mut
 patch -s -p1 -d $S/mut < $SRC/patch.diff || { echo "patch(1) failed"; rm -rf $S; exit 2; }
@@ -25,6 +29,12 @@ for d in clean mut; do (cd $S/$d && /venv/bin/python setup.py build_ext -i >/dev
 (cd $S/mut && PYTHONPATH=$S/mut timeout 1200 /venv/bin/python -m pytest -q -p no:cacheprovider psutil/tests/test_process.py psutil/tests/test_linux.py psutil/tests/test_system.py psutil/tests/test_misc.py psutil/tests/test_posix.py psutil/tests/test_contracts.py >$S/tests.log 2>&1)
 TESTS=$(tail -1 $S/tests.log)
 FAILED=$(grep "^FAILED" $S/tests.log | grep -v "test_users" | head -5)
+fi
+if [ -n "$PRE_ONLY" ]; then
+  printf 'DM=%q\nDC=%q\nTESTS=%q\nFAILED=%q\n' "$DM" "$DC" "$TESTS" "$FAILED" > $SRC/pre.env
+  echo "$ID pre: demo with change: exit $DM ; without: exit $DC ; tests: $TESTS $FAILED"
+  rm -rf $S; exit 0
+fi
 echo "demo with change: exit $DM ; without: exit $DC"
 echo "tests with change: $TESTS"
 [ -n "$FAILED" ] && echo "UNEXPECTED TEST FAILURES: $FAILED"
@@ -51,6 +61,6 @@ m['confirmed_by_harness_author']={
   'tests_with_change':TESTS,'unexpected_test_failures':FAILED,
   'checks_run':RES.strip(),
   'procedure':'scratch copies of /repo HEAD with/without patch.diff: demo.py and the six main test files; then git -C /repo apply, ./check <ID> quick, git -C /repo checkout -- .'}
-json.dump(m,open(f'/verif/{DST}/meta.json','w'),indent=1)
+json.dump(m,open(f'{DST}/meta.json','w'),indent=1)
 PY
 rm -rf $S
